@@ -208,7 +208,7 @@ func Main18(tier, replay string) {
 		if len(ci.Perts) == 2 && tier != "thorough" {
 			linkOnly := true
 			for _, p := range ci.Perts {
-				if !(strings.HasPrefix(p, "ann") || strings.HasPrefix(p, "route.") || strings.HasPrefix(p, "prefix.")) || strings.Contains(p, ".kind->") || strings.Contains(p, ".retarget->") {
+				if !linkLevel(p) {
 					linkOnly = false
 				}
 			}
